@@ -39,6 +39,13 @@ def daemon_specs(tier, seed):
                 c = simple_cert("c%d" % len(specs), key_type=kt, kp_reuse=reuse)
                 specs.append(flowcheck.prepare(dict(tag="C02/s%03d" % len(specs), certs=[c], steps=steps, account_hooks=file_hooks,
                                                     meta={"family": "chain lengths over renewals", "chain_lens": seq, "key_type": kt, "kp_reuse": reuse})))
+    # a usable key of another type than configured is on disk (key_type edited, file name format without the key type)
+    for kt in ("ecdsa_p256", "rsa2048"):
+        for reuse in (False, True):
+            c = simple_cert("o%d" % len(specs), key_type=kt, kp_reuse=reuse)
+            steps = [("call", flowcheck.install_pair(c, "othertype")), ("run", {"attempts": 1}), ("call", set_chain(3)), ("run", {"attempts": 1})]
+            specs.append(flowcheck.prepare(dict(tag="C02/s%03d" % len(specs), certs=[c], steps=steps, account_hooks=file_hooks,
+                                                meta={"family": "stored key of another type than configured", "key_type": kt, "kp_reuse": reuse})))
     # account files that gain and lose contacts, endpoints and superseded keys
     long_c = ["a-very-long-contact-address-%d@example.org" % i for i in range(6)]
     plans = [[long_c, long_c[:1], long_c[:3]], [long_c[:1], long_c, []], [long_c[:2], long_c[:2] + ["x@example.org"], long_c[:1]]]
